@@ -1,7 +1,7 @@
 """Input streams for the v2 parser, the TLV iterator and the auto-detecting parser (DESIGN 5.3).
 Every stream function has the signature f(tier, rng, k, n) and yields (stream, bytes-expression, meta);
 shard k of n enumerates only its share of a deterministic stream."""
-from .lib import Rng, SIG, FAM_SIZE, be16, v2_fixed, enc_tlv, expr, fill, hx, special_ip6, special_ip4
+from .lib import Rng, SIG, FAM_SIZE, be16, v2_fixed, enc_tlv, expr, fill, hx, special_ip6, special_ip4, class_pairs
 
 LENGTH_TABLE = [0, 11, 12, 13, 35, 36, 37, 215, 216, 217, 255, 256, 257, 65535]
 VALID_VC = [0x20, 0x21]
@@ -143,6 +143,13 @@ def structured_value(rng, k):
             out += enc_tlv(rng.choice(types), v)
         return bytes(out)
     pick = rng.below(5)
+    if k == 3:
+        # PP2_TYPE_CRC32C: four bytes, zero while the sender computes the checksum
+        return rng.choice([bytes(4), bytes(4), rng.bytes(4), b"\xff\xff\xff\xff"])
+    if k == 5:
+        return rng.bytes(rng.choice([1, 16, 128]))          # PP2_TYPE_UNIQUE_ID: opaque, at most 128 bytes
+    if k == 4:
+        return bytes(rng.choice([0, 1, 5, 13]))             # PP2_TYPE_NOOP: padding, zeros
     if k == 0x20 or pick == 0:
         client = rng.choice([0, 1, 1, 3, 5, 7, 255])
         verify = rng.choice([bytes(4), bytes([0, 0, 0, 1]), rng.bytes(4)])
@@ -174,7 +181,9 @@ def random_tlvs(rng, budget, wellformed=True):
         elif rng.chance(1, 4):
             v = structured_value(rng, k)
         else:
-            v = rng.bytes(rng.choice([0, 0, 1, 1, 2, 3, 7, 16, 255, 256, 257, 300, 1000]))
+            v = rng.bytes(rng.choice([0, 0, 1, 1, 2, 3, 4, 7, 8, 16, 255, 256, 257, 300, 1000]))
+            if rng.chance(1, 8):
+                v = bytes(len(v))                             # all-zero value (placeholders, padding)
         if len(out) + 3 + len(v) > budget:
             break
         out += enc_tlv(k, v)
@@ -227,6 +236,17 @@ def valid_header(rng, fam=None, big=False):
 def valid_headers(tier, rng, k, n):
     """valid-heavy stream: random well-formed headers (all families), some with trailers"""
     rng = rng.fork("valid%d" % k)
+    # deterministic part: every ordered pair of address classes in an IPv6 / IPv4 block (value-keyed behaviour that
+    # needs *both* addresses to be of a kind is then exercised on every run, not with probability p^2)
+    crng = Rng(0xC1A55).fork("v2pairs")
+    for fam, size in ((6, 2), (4, 1)):
+        for a, b in class_pairs(crng, fam, k, n):
+            vc = crng.choice(VALID_VC)
+            fp = size * 16 + 1 + crng.below(2)
+            tl = random_tlvs(crng, 60) if crng.chance(1, 2) else b""
+            addr = a + b + crng.bytes(4)
+            yield ("v2-valid", hx(v2_fixed(vc, fp, len(addr) + len(tl)) + addr + tl),
+                   {"vc": vc, "fp": fp, "declared": len(addr) + len(tl), "fam": size})
     count = (20000 if tier == "quick" else 400000) // n
     for i in range(count):
         big = rng.chance(1, 400)
